@@ -488,12 +488,12 @@ type schedState struct {
 }
 
 func schedules(t *testing.T, r *mc.Run) {
-	for _, o := range scenarios(r) {
+	for _, o := range scenarios(t, r) {
 		mc.Explore(t, r, o)
 	}
 }
 
-func scenarios(r *mc.Run) (out []*mc.SchedOpts) {
+func scenarios(t *testing.T, r *mc.Run) (out []*mc.SchedOpts) {
 	pre := mc.Pick(r, 1, 2)
 	pcs := payloads()
 	// (the refused payload fails while the only flow file is parsed, so that the point at
@@ -505,68 +505,94 @@ func scenarios(r *mc.Run) (out []*mc.SchedOpts) {
 		}
 		for _, ep := range []string{"configuration", "apply_flows"} {
 			pc, ep := pc, ep
-			out = append(out, &mc.SchedOpts{Name: "probe-during-" + pc.Name + "-via-" + ep, MaxPreempt: pre, MaxT: 0,
-				MaxExecutions: int64(mc.Pick(r, 4000, 400000)),
-				Body: func(x *mc.Exec) {
-					st := &schedState{}
-					x.Vals["st"] = st
-					ctx, cancel := context.WithCancel(context.Background())
-					st.cancel = cancel
-					contextmanager.Get().WithContext(ctx)
-					st.root = setupRoot()
-					http.DefaultClient.Transport = &adminFake{}
-					vos.Reset(0, 0)
-					rd, err := routing.VerifNewHandlingDataManager()
-					if err != nil {
-						panic("manager did not start: " + err.Error())
-					}
-					st.rd = rd
-					st.before = probe(rd.VerifStream(), "b")
-					body, _ := json.Marshal(pc.Payload)
-					x.Go("update", func() {
-						rec := httptest.NewRecorder()
-						rq := httptest.NewRequest(http.MethodPut, "/"+ep, bytes.NewReader(body))
-						if ep == "configuration" {
-							rd.VerifHandleConfiguration()(rec, rq)
-						} else {
-							rd.VerifHandleApplyFlows()(rec, rq)
+			// what the payload's configuration answers once it is fully applied (fault-free run)
+			intended := runCase(t, pc, ep, [2]int64{}, 0).ProbeAfter
+			add := func(name string, fault int64) {
+				out = append(out, &mc.SchedOpts{Name: name, MaxPreempt: pre, MaxT: 0,
+					MaxExecutions: int64(mc.Pick(r, 4000, 400000)),
+					Body: func(x *mc.Exec) {
+						st := &schedState{}
+						x.Vals["st"] = st
+						ctx, cancel := context.WithCancel(context.Background())
+						st.cancel = cancel
+						contextmanager.Get().WithContext(ctx)
+						st.root = setupRoot()
+						http.DefaultClient.Transport = &adminFake{}
+						vos.Reset(0, 0)
+						defer vos.Reset(fault, 0) // the plan starts with the update
+						rd, err := routing.VerifNewHandlingDataManager()
+						if err != nil {
+							panic("manager did not start: " + err.Error())
 						}
-						st.status, st.updated = rec.Code, true
-					})
-					for _, name := range []string{"txn1", "txn2"} {
-						name := name
-						x.Go(name, func() {
-							// exactly what routing.processRequest does: read the manager's
-							// engine pointer and run the flow on it
-							st.during = append(st.during, probe(rd.VerifStream(), name))
+						st.rd = rd
+						st.before = probe(rd.VerifStream(), "b")
+						body, _ := json.Marshal(pc.Payload)
+						x.Go("update", func() {
+							rec := httptest.NewRecorder()
+							rq := httptest.NewRequest(http.MethodPut, "/"+ep, bytes.NewReader(body))
+							if ep == "configuration" {
+								rd.VerifHandleConfiguration()(rec, rq)
+							} else {
+								rd.VerifHandleApplyFlows()(rec, rq)
+							}
+							st.status, st.updated = rec.Code, true
 						})
-					}
-				},
-				Check: func(x *mc.Exec) (string, string) {
-					st := x.Vals["st"].(*schedState)
-					if x.Horizon || !st.updated {
-						return "", ""
-					}
-					after := probe(st.rd.VerifStream(), "a")
-					x.Logf("status=%d before=%v during=%v after=%v", st.status, st.before, st.during, after)
-					ok := st.status >= 200 && st.status < 300
-					if !ok && !same(st.before, after) {
-						return "BEHAVIOUR-CHANGED:" + ep + ":concurrent", fmt.Sprintf("refused update (status %d) changed probe verdicts: before %v after %v", st.status, st.before, after)
-					}
-					for _, d := range st.during {
-						for i, v := range d {
-							if v != st.before[i] && v != after[i] {
-								return "HALF-BUILT-ENGINE:" + ep, fmt.Sprintf("a transaction arriving during the update (status %d) got %s: neither the old configuration's verdict %s nor the new one's %s", st.status, v, st.before[i], after[i])
+						for _, name := range []string{"txn1", "txn2"} {
+							name := name
+							x.Go(name, func() {
+								// exactly what routing.processRequest does: read the manager's
+								// engine pointer and run the flow on it
+								st.during = append(st.during, probe(rd.VerifStream(), name))
+							})
+						}
+					},
+					Check: func(x *mc.Exec) (string, string) {
+						st := x.Vals["st"].(*schedState)
+						if x.Horizon || !st.updated {
+							return "", ""
+						}
+						after := probe(st.rd.VerifStream(), "a")
+						x.Logf("status=%d before=%v during=%v after=%v", st.status, st.before, st.during, after)
+						ok := st.status >= 200 && st.status < 300
+						if !ok && !same(st.before, after) {
+							return "BEHAVIOUR-CHANGED:" + ep + ":concurrent", fmt.Sprintf("refused update (status %d) changed probe verdicts: before %v after %v", st.status, st.before, after)
+						}
+						for _, d := range st.during {
+							for i, v := range d {
+								if v != st.before[i] && v != after[i] {
+									if !ok && v == intended[i] {
+										// a complete engine, but of the configuration that was then refused
+										return "REFUSED-UPDATE-SERVED-TRAFFIC:" + ep, fmt.Sprintf("the update failed (status %d) after its engine had been published: a transaction arriving before the roll-back got %s, the refused configuration's verdict (before and after: %s)", st.status, v, st.before[i])
+									}
+									return "HALF-BUILT-ENGINE:" + ep, fmt.Sprintf("a transaction arriving during the update (status %d) got %s: neither the old configuration's verdict %s nor the new one's %s", st.status, v, st.before[i], after[i])
+								}
 							}
 						}
-					}
-					return "", ""
-				},
-				Teardown: func(x *mc.Exec) {
-					st := x.Vals["st"].(*schedState)
-					st.cancel()
-					os.RemoveAll(st.root)
-				}})
+						return "", ""
+					},
+					Teardown: func(x *mc.Exec) {
+						vos.Reset(0, 0)
+						st := x.Vals["st"].(*schedState)
+						st.cancel()
+						os.RemoveAll(st.root)
+					}})
+			}
+			add("probe-during-"+pc.Name+"-via-"+ep, 0)
+			if pc.Name != "changes-flow" || (!r.Thorough() && ep != "configuration") {
+				continue
+			}
+			// the same update with one reload-step fault (a read of a configuration file by
+			// the dry run or the real load, the write of the generated endpoints file)
+			base := runCase(t, pc, ep, [2]int64{}, 0)
+			for k, n := range base.VosNames {
+				if !strings.HasPrefix(n, "ReadFile") && !strings.HasPrefix(n, "WriteFile") {
+					continue
+				}
+				if !r.Thorough() && strings.Contains(n, "/processors/registry/") {
+					continue
+				}
+				add(fmt.Sprintf("probe-during-%s-via-%s-with-fault-at-fs#%d", pc.Name, ep, k+1), int64(k+1))
+			}
 		}
 	}
 	return
@@ -581,7 +607,7 @@ func TestTraceStable(t *testing.T) {
 		t.Skip()
 	}
 	r := mc.New("C08", "fault_enumeration")
-	for _, o := range scenarios(r) {
+	for _, o := range scenarios(t, r) {
 		var first []string
 		for i := 0; i < 25; i++ {
 			x := mc.TraceOne(t, o, nil)
@@ -667,6 +693,10 @@ func TestCheck(t *testing.T) {
 				}
 				faults := []fault{{label: "none"}}
 				for k := int64(1); k <= base.VosCalls; k++ {
+					if !r.Thorough() && strings.Contains(base.VosNames[k-1], "/processors/registry/") {
+						// reads of the built-in processor definitions: thorough tier only
+						continue
+					}
 					faults = append(faults, fault{vos: [2]int64{k, 0}, label: fmt.Sprintf("fs#%d:%s", k, base.VosTrace[k-1])})
 				}
 				for j := 1; j <= base.AdminCalls; j++ {
